@@ -51,14 +51,16 @@ def array (i : Iter) : Res View :=
     if i.lim < e then .error .generic
     else .ok { lim := e, off := i.off }
 
-/-- `i.Root(dst)` with a fresh `dst`: returns (type of first element, dst). -/
+/-- `i.Root(dst)` with a fresh `dst`: returns (type of first element, dst).  The type is
+    `dst.AdvanceInto().Type()`, i.e. `Tag.Type()` = `TagToType[tag]` of the tag `AdvanceInto` returned —
+    not `Iter.Type()`: there is no bounds test. -/
 def root (pj : PJ) (i : Iter) : Res (UInt8 × Iter) :=
   if i.t != tagRoot then .error .generic
   else if i.cur.toNat > i.lim ∨ i.cur == 0 then .error .generic
   else do
     let d : Iter := { i with addNext := 0, lim := i.cur.toNat - 1 }
-    let (d', _) ← d.advanceInto pj
-    .ok (d'.type, d')
+    let (d', tg) ← d.advanceInto pj
+    .ok (tagToType tg, d')
 
 end Iter
 
